@@ -14,6 +14,7 @@ from geneticengine.representations.api import (
 from geneticengine.representations.tree.initializations import (
     GlobalSynthesisContext,
     LocalSynthesisContext,
+    PositionIndependentGrowDecider,
     SynthesisDecider,
     apply_constructor,
     create_node,
@@ -36,6 +37,11 @@ def random_node(
     decider: SynthesisDecider,
 ):
     assert isinstance(decider, SynthesisDecider)
+    if isinstance(decider, PositionIndependentGrowDecider):
+        # Every tree starts in expanding mode. The decider only resets its flag at a production choice at expansion 0, which never
+        # happens when the starting symbol is a concrete production: the flag left over from the previous tree would then decide
+        # how this one is built (and a genotype mapped through a copy of the decider would map differently from one tree to the next).
+        decider.expanding = True
     return create_node(
         GlobalSynthesisContext(
             random=random,
